@@ -162,7 +162,15 @@ def evaluate_case(case, rop: bool, tmp: Path):
             if isinstance(v, Dataset) and v.data is not None:
                 rec["problems"].append(("data-not-none", f"{fmt}: returned dataset {k} carries in-memory data"))
         rec["files"][fmt] = {f: (d / f).read_bytes() for f in got_files if not f.endswith(".parquet")}
-        rec["dir_" + fmt] = d
+        if fmt == "parquet":
+            import pyarrow.parquet as pq
+            rec["pq"] = {}
+            for f in got_files:
+                if f.endswith(".parquet"):
+                    tb = pq.read_table(d / f)
+                    rec["pq"][f[:-8]] = (list(tb.column_names),
+                                         list(zip(*[tb.column(c).to_pylist() for c in tb.column_names])) if tb.num_columns else [])
+        shutil.rmtree(d, ignore_errors=True)
     return rec
 
 
@@ -297,14 +305,11 @@ def check_records(ctx, cases_recs, tag: str):
                         if msg:
                             problems.append((K_NUMBER_ULP if msg[0] == "ulp" else "csv-content", msg[1]))
                     else:
-                        p = rec["dir_parquet"] / f"{name}.parquet"
-                        if not p.exists():
+                        if name not in rec.get("pq", {}):
                             problems.append(("file-missing", f"parquet: no file for dataset {name}"))
                             continue
-                        import pyarrow.parquet as pq
-                        tb = pq.read_table(p)
-                        prow = list(zip(*[tb.column(c).to_pylist() for c in tb.column_names])) if tb.num_columns else []
-                        msg = compare_dataset(name, v, list(tb.column_names), prow, "parquet", canon_pq_cell)
+                        pcols, prow = rec["pq"][name]
+                        msg = compare_dataset(name, v, pcols, prow, "parquet", canon_pq_cell)
                         if msg:
                             problems.append((K_NUMBER_ULP if msg[0] == "ulp" else "parquet-content", msg[1]))
             # scalars
@@ -430,80 +435,80 @@ def suite_cases(ctx, n):
 def run(ctx):
     import engine
     engine.install(need_parser=True)
-    ok = ctx.prove("C14")
+    ctx.prove("C14")
     duckdb_writer_rule(ctx)
     n_gen = 45 if ctx.tier == "quick" else 1300
     n_suite = 30 if ctx.tier == "quick" else 400
     tmp = Path(tempfile.mkdtemp(prefix="c14_"))
     hist: Dict[str, int] = {}
+    t_engine = 0.0
     try:
-        # corpus of past failures first
-        past = []
-        for f in sorted((CORPUS / "C14").glob("*.json")) if (CORPUS / "C14").exists() else []:
-            obj = json.loads(f.read_text())
-            past.append((case_from_obj(obj), obj["rop"]))
-        recs = []
-        for case, rop in past:
-            recs.append((case, evaluate_case(case, rop, tmp / f"p{len(recs)}")))
-        if recs:
-            check_records(ctx, recs, "past")
-        ctx.cov["corpus_past_failures"] = len(past)
-        # generated
-        batch, done, skipped = [], 0, 0
+        recs = []           # (case, rec) of every stream; Coq is invoked once per chunk of 400 cases
+        chunk_no = [0]
+
+        def flush(force=False):
+            if recs and (force or len(recs) >= 800):
+                check_records(ctx, list(recs), f"k{chunk_no[0]}")
+                chunk_no[0] += 1
+                recs.clear()
+
+        # 1. corpus of past failures first
+        past = 0
+        if (CORPUS / "C14").exists():
+            for f in sorted((CORPUS / "C14").glob("*.json")):
+                obj = json.loads(f.read_text())
+                case = case_from_obj(obj)
+                recs.append((case, evaluate_case(case, obj["rop"], tmp / f"p{past}")))
+                past += 1
+        ctx.cov["corpus_past_failures"] = past
+        # 2. generated
+        skipped = 0
         for i in range(n_gen):
             case = G.gen_data_case(ctx.rng)
             for t in set(c["type"] for c in case["structs"]["datasets"][0]["DataStructure"]):
                 hist[t] = hist.get(t, 0) + 1
             hist["rows=%d" % len(case["data"]["DS_1"])] = hist.get("rows=%d" % len(case["data"]["DS_1"]), 0) + 1
             for rop in (True, False):
+                t0 = time.time()
                 rec = evaluate_case(case, rop, tmp / f"g{i}_{int(rop)}")
+                t_engine += time.time() - t0
                 if "skip" in rec:
                     skipped += 1
                     continue
-                batch.append((case, rec))
-            if len(batch) >= 60 or i == n_gen - 1:
-                check_records(ctx, batch, f"gen{done}")
-                done += 1
-                for _, r in batch:
-                    for k in ("dir_csv", "dir_parquet"):
-                        if k in r:
-                            shutil.rmtree(r[k], ignore_errors=True)
-                batch = []
+                recs.append((case, rec))
             if i < 3:
                 ctx.sample({"script": case["script"], "rows": case["data"]["DS_1"].head(3).to_dict("list")})
+            flush()
         ctx.cov["generated_cases"] = n_gen
         ctx.cov["generated_skipped_engine_error"] = skipped
-        # test-suite scripts with data
+        # 3. test-suite scripts with data
         sc = suite_cases(ctx, n_suite)
-        batch, n_ok, n_skip = [], 0, 0
+        n_ok = n_skip = 0
         for i, case in enumerate(sc):
             for rop in (True, False):
+                t0 = time.time()
                 rec = evaluate_case(case, rop, tmp / f"s{i}_{int(rop)}")
+                t_engine += time.time() - t0
                 if "skip" in rec:
                     n_skip += 1
                     continue
                 n_ok += 1
-                batch.append((case, rec))
-            if len(batch) >= 40 or i == len(sc) - 1:
-                if batch:
-                    check_records(ctx, batch, f"suite{i}")
-                for _, r in batch:
-                    for k in ("dir_csv", "dir_parquet"):
-                        if k in r:
-                            shutil.rmtree(r[k], ignore_errors=True)
-                batch = []
+                recs.append((case, rec))
+            flush()
+        flush(force=True)
         ctx.cov["suite_scripts_with_data"] = len(sc)
         ctx.cov["suite_runs_compared"] = n_ok
         ctx.cov["suite_runs_skipped_engine_error"] = n_skip
     finally:
         shutil.rmtree(tmp, ignore_errors=True)
+    ctx.cov["engine_seconds"] = round(t_engine, 1)
     ctx.cov["input_distribution"] = hist
     ctx.cov["rule"] = ("one evaluated case = one returned dataset (or the scalar file) of one run variant (csv|parquet x return_only_persistent) "
                        "compared with the in-memory run of the same script/data; distinct = (case, variant, result name); plus every string of "
                        "the writer-rule table")
     ctx.trusted.append("DuckDB 1.5.5 COPY and Python csv.writer are only observed: their rules (Codec.v a/b) are re-checked on every run "
                        "(code points 1..0x2FF in four positions; every file written in this run re-encoded by the model byte for byte)")
-    ctx.trusted.append("Parquet files are read back with pandas/pyarrow: no Parquet codec model (partial)")
+    ctx.trusted.append("Parquet files are read back with pyarrow: no Parquet codec model (partial)")
     ctx.assumptions.append("Number cells are compared as the float64 the in-memory result holds (float(DECIMAL text) = in-memory float, exact "
                            "rationals); nullable BIGINT columns that pandas holds as float64 are compared at that precision")
     ctx.assumptions.append("bytes 0x00 are not generated (VTL strings cannot carry NUL through the DataFrame loader)")
